@@ -388,7 +388,10 @@ class Kernel:
         return False
 
     def _return(self, ret, lst, tail):
+        from ..astutil import resolve
         v = ret.value
+        if isinstance(v, ast.Name) and v.id != lst:
+            v = resolve(self.fi.node, v, before=ret.lineno + 1)
         if isinstance(v, ast.Call) and call_name(v) in ("np.array", "numpy.array") and v.args:
             v = v.args[0]
         # collect local aliases like wsea_partitions = [a, b]
